@@ -63,6 +63,26 @@ class Sys(e1.TimedSys):
             self.prot.discovery.watch_all_services(self.listener)
         else:
             self.listener = ServerRec("S", self.log, self.loop)
+            if cfg.get("replacing"):
+                # an application policy: a client's new subscription replaces its previous one - the listener calls back
+                # into the instance while it is being told about the new subscription
+                sys_ = self
+
+                class Replacing(ServerRec):
+                    def client_subscribed(self, subscription, source):
+                        super().client_subscribed(subscription, source)
+                        for prev in list(sys_.current.get(source, ())):
+                            if prev != subscription:
+                                sys_.inst.eventgroup_subscribe_stopped(source, prev)
+                        sys_.current.setdefault(source, []).append(subscription)
+
+                    def client_unsubscribed(self, subscription, source):
+                        super().client_unsubscribed(subscription, source)
+                        if subscription in sys_.current.get(source, ()):
+                            sys_.current[source].remove(subscription)
+
+                self.current = {}
+                self.listener = Replacing("S", self.log, self.loop)
             self.inst = sd.ServiceInstance(cfg_.Service(SID, 1, 1, 0, eventgroups=frozenset({5, 6})),
                                            self.listener, self.prot.announcer, self.prot.timings)
             self.prot.announcer.announce_service(self.inst)
@@ -121,6 +141,11 @@ class Sys(e1.TimedSys):
                 if self.mode == "instance" and self.model.reject and k == "K2":
                     return  # refused by the listener: not recorded, nothing reported, no timer may remain
                 self.expect.append((now, "new", k, a))
+                if self.cfg.get("replacing"):
+                    for (a2, k2) in sorted(self.model.deadline):
+                        if a2 == a and k2 != k:
+                            del self.model.deadline[(a2, k2)]
+                            self.expect.append((now, "gone", k2, a))
             self.model.deadline[(a, k)] = None if ttl == INF else now + ttl
         elif act[0] == "addseq":
             _, k, a, seq = act
@@ -287,6 +312,10 @@ def configs(ctx):
         out.append((f"{mode}-2keys-1addr",
                     dict(mode=mode, keys=("K1", "K2"), addrs=("A1",), ttls=(1, 2, INF), advs=base_advs + ("jump",),
                          fine=ctx.pick(1, 2), reject=True), CLOSURE))
+        if mode == "instance":
+            out.append(("instance-2keys-replacing-listener",
+                        dict(mode=mode, keys=("K1", "K2"), addrs=("A1",), ttls=(1, 2, INF), advs=base_advs, fine=1, replacing=True),
+                        CLOSURE))
         # the same small alphabet with the clock starting shortly before 0xFFFFFF s (the value of the infinite-TTL marker)
         # and shortly before 2^24 s: deadlines are times, the marker is a duration
         for origin in (0xFFFFFF - 3, 2 ** 24 - 2):
